@@ -45,16 +45,23 @@ CONTAINER_MUTATORS = {"append", "extend", "insert", "pop", "remove", "sort", "re
 IDENTITY = (ast.List, ast.Dict, ast.Set, ast.ListComp, ast.SetComp, ast.DictComp, ast.GeneratorExp, ast.Lambda)
 
 
+# set by the equivalence prover for the module / class being compared (sa/equiv.infer_pure)
+EXTRA_PURE_FUNCS = set()
+EXTRA_PURE_SELF_METHODS = set()
+
+
 def is_pure_call(c):
     f = c.func
     if isinstance(f, ast.Name):
-        if f.id in PURE_FUNCS:
+        if f.id in PURE_FUNCS or f.id in EXTRA_PURE_FUNCS:
             return True
         if f.id.endswith(("Error", "Exception", "Warning")):
             return True
         return False
     if isinstance(f, ast.Attribute):
         if f.attr in PURE_METHODS:
+            return True
+        if isinstance(f.value, ast.Name) and f.value.id == "self" and f.attr in EXTRA_PURE_SELF_METHODS:
             return True
         if f.attr.endswith(("Error", "Exception", "Warning")):
             return True
@@ -133,6 +140,31 @@ def _ordered_names(node):
     for c in ast.iter_child_nodes(node):
         for x in _ordered_names(c):
             yield x
+
+
+def canon_bound(e):
+    """The variables a comprehension / lambda binds itself are renamed _b1, _b2, ... (their names are not observable)."""
+    e = copy.deepcopy(e)
+    bound = []
+    for x in ast.walk(e):
+        if isinstance(x, ast.comprehension):
+            for t in ast.walk(x.target):
+                if isinstance(t, ast.Name) and t.id not in bound:
+                    bound.append(t.id)
+        elif isinstance(x, ast.Lambda):
+            a = x.args
+            for y in a.posonlyargs + a.args + a.kwonlyargs:
+                if y.arg not in bound:
+                    bound.append(y.arg)
+    if not bound:
+        return e
+    m = dict((nm, "_b%d" % (i + 1)) for i, nm in enumerate(bound))
+    for x in ast.walk(e):
+        if isinstance(x, ast.Name) and x.id in m:
+            x.id = m[x.id]
+        elif isinstance(x, ast.arg) and x.arg in m:
+            x.arg = m[x.arg]
+    return e
 
 
 class P(Path):
@@ -346,6 +378,7 @@ class NF(object):
                 out.append((q, ast.Name(id=nm, ctx=ast.Load())))
             return out
         if isinstance(e, (ast.Lambda, ast.GeneratorExp, ast.ListComp, ast.SetComp, ast.DictComp)):
+            e = canon_bound(e)
             # a unit: the locals it captures must be stable names
             bound = set()
             for x in ast.walk(e):
